@@ -14,7 +14,8 @@ binary64 round-to-nearest-even (`rnd = rne`).
   rne <v>          binary64 rounding of a rational→ <val>
   raop <m> <ctx|none> <ops>   facade over RaopAudio → per-op event lists
   mrp  <m> <vol> <ops>        facade over MrpAudio  → per-op event lists
-  ops: `s:<v>` set, `u` up, `d` down, `r` read, `p:<v>` report; comma separated, `-` = none
+  ops: `s:<v>` set, `u` up, `d` down, `r` read, `p:<v>` report, `t:<v|none>` stream start (raop only),
+       `o:<v>` update for another output device (mrp only); comma separated, `-` = none
   events: recv:<v> wire:<v> disp:<v> ret:<v> raise:<e> log:<e>; `,` inside an op, `;` between ops
 -/
 namespace PyatvModel.C20
@@ -57,17 +58,22 @@ def Ev.str : Ev → String
   | .raised e => "raise:" ++ e.str
   | .logged e => "log:" ++ e.str
 
-def op? (s : String) : Option Op :=
+/-- `raop` = true: RAOP histories (`t:` stream start allowed), false: MRP (`o:` allowed) -/
+def op? (raop : Bool) (s : String) : Option Op :=
   if s == "u" then some .up
   else if s == "d" then some .down
   else if s == "r" then some .read
   else match s.splitOn ":" with
     | ["s", v] => (fval? v).map .set
     | ["p", v] => (fval? v).map .report
+    | ["t", v] =>
+      if !raop then none
+      else if v == "none" then some (.streamStart none) else (fval? v).map (fun x => .streamStart (some x))
+    | ["o", v] => if raop then none else (fval? v).map .reportOther
     | _ => none
 
-def ops? (s : String) : Option (List Op) :=
-  if s == "-" then some [] else (s.splitOn ",").mapM op?
+def ops? (raop : Bool) (s : String) : Option (List Op) :=
+  if s == "-" then some [] else (s.splitOn ",").mapM (op? raop)
 
 def outStr (evs : List (List Ev)) : String :=
   if evs.isEmpty then "-" else String.intercalate ";" (evs.map fun l => csv (l.map Ev.str))
@@ -103,11 +109,11 @@ def handle (_ : Unit) (ws : List String) : Unit × String :=
     | some q => ((), ratStr (rne q))
     | none => ((), "bad-op")
   | ["raop", m, c, os] =>
-    match rnd? m, (if c == "none" then some none else (fval? c).map some), ops? os with
+    match rnd? m, (if c == "none" then some none else (fval? c).map some), ops? true os with
     | some r, some c, some os => ((), outStr (Raop.run r ⟨c⟩ os))
     | _, _, _ => ((), "bad-op")
   | ["mrp", m, v, os] =>
-    match rnd? m, fval? v, ops? os with
+    match rnd? m, fval? v, ops? false os with
     | some r, some v, some os => ((), outStr (Mrp.run r ⟨v⟩ os))
     | _, _, _ => ((), "bad-op")
   | _ => ((), "bad-op")
